@@ -146,6 +146,10 @@ def idx(obj, i):
         return obj.group(i)
     if isinstance(obj, dict):
         return obj.get(i, UNDEF)
+    if isinstance(obj, Buffer):
+        if isinstance(i, int) and 0 <= i < len(obj.data):
+            return obj.data[i]
+        return UNDEF
     raise Unsupported('index on %r' % type(obj))
 
 
@@ -178,6 +182,8 @@ def get(obj, name):
     if isinstance(obj, JSMap):
         if name == 'size':
             return len(obj.keys)
+    if isinstance(obj, Buffer) and name == 'length':
+        return len(obj.data)
     if isinstance(obj, dict):
         return obj.get(name, UNDEF)
     if obj is None or obj is UNDEF:
@@ -565,6 +571,31 @@ def utf8_decode(data, fatal, final):
             out.append(REPLACEMENT)
             i = j        # the maximal valid prefix of the ill-formed sequence is replaced by ONE U+FFFD
     return (''.join(out), [], had_error)
+
+
+def utf8_encode(text):
+    """Buffer.from(text, 'utf-8'): list of byte values (a lone surrogate is encoded as U+FFFD, as Node does)."""
+    out = []
+    for ch in text:
+        cp = ord(ch)
+        if cp < 0x80:
+            out.append(cp)
+        elif cp < 0x800:
+            out.append(0xC0 + cp // 64)
+            out.append(0x80 + cp % 64)
+        elif cp < 0x10000:
+            if 0xD800 <= cp <= 0xDFFF:
+                out.extend([0xEF, 0xBF, 0xBD])
+            else:
+                out.append(0xE0 + cp // 4096)
+                out.append(0x80 + (cp // 64) % 64)
+                out.append(0x80 + cp % 64)
+        else:
+            out.append(0xF0 + cp // 262144)
+            out.append(0x80 + (cp // 4096) % 64)
+            out.append(0x80 + (cp // 64) % 64)
+            out.append(0x80 + cp % 64)
+    return out
 
 
 class Buffer(object):
